@@ -156,6 +156,13 @@ pub fn corpus(tier: &str) -> Vec<Corpus> {
             }
         }
     }
+    // a name supplied by several imported modules / by-name imports: the binding (C11) must not
+    // depend on hash seeds either; these are built repeatedly (no schedule can expose them)
+    for uses in [vec!["use a;", "use b;"], vec!["use b;", "use a;"], vec!["use a;", "use b;", "use c;"], vec!["use a::X;", "use b::X;"], vec!["use c::X;", "use a::X;", "use b::X;"], vec!["use a;", "use b::X;", "use c;"]] {
+        let mk = |n: usize| format!("pub type X {{\n    pub v: [u32; {n}],\n}}\n");
+        let o = format!("{}\npub type O {{\n    pub x: X,\n    pub p: *const X,\n}}\nimpl O {{\n    #[address(0x1000)]\n    pub fn g(&self, x: *mut X) -> *const X;\n}}\n", uses.join("\n"));
+        out.push(Corpus { input: Input { modules: vec![("a".into(), mk(1)), ("b".into(), mk(2)), ("c".into(), mk(4)), ("o".into(), o)] }, features: vec!["ambiguous_imports".into()] });
+    }
     // dependency graphs (by-value chains, cycles, pointer cycles, undefined names)
     for g in graphs::graph_inputs(tier, true) {
         out.push(Corpus { input: g.input, features: vec!["graph".into()] });
@@ -189,7 +196,8 @@ pub fn run(tier: &str, only: Option<&Value>) -> i32 {
             let orders = add_orders(c.input.modules.len());
             let mut ex = sched::explore(&c.input, ps, &orders, cap);
             // supplementary: plain builds with fresh RandomState
-            for _ in 0..2 {
+            let reps = if c.features.iter().any(|f| f == "ambiguous_imports") { 24 } else { 2 };
+            for _ in 0..reps {
                 for o in &orders {
                     let inp = Input { modules: o.iter().map(|&i| c.input.modules[i].clone()).collect() };
                     let v = pipe::run(&inp, ps);
